@@ -9,6 +9,8 @@ import (
 	"go/types"
 	"sort"
 	"strings"
+
+	"golang.org/x/tools/go/ssa"
 )
 
 type lockClass struct {
@@ -166,10 +168,33 @@ func (e *Exec) classOf(lock Val) string {
 	return ""
 }
 
-func (e *Exec) lockEffects() []string {
+// lockEffectsFor: like lockEffects, restricted to the class of the lock when the call names it as a
+// field of a struct (x.mu.Lock()).
+func (e *Exec) lockEffectsFor(cc *ssa.CallCommon) []string {
+	if len(cc.Args) > 0 {
+		if fa, ok := cc.Args[0].(*ssa.FieldAddr); ok {
+			if pt, ok := fa.X.Type().Underlying().(*types.Pointer); ok {
+				if u, ok := pt.Elem().Underlying().(*types.Struct); ok {
+					cls := structName(pt.Elem()) + "." + sanitize(u.Field(fa.Field).Name())
+					if _, known := e.w.discipline().classes[cls]; known {
+						return e.lockEffectsOf(cls)
+					}
+				}
+			}
+		}
+	}
+	return e.lockEffects()
+}
+
+func (e *Exec) lockEffects() []string { return e.lockEffectsOf("") }
+
+func (e *Exec) lockEffectsOf(only string) []string {
 	// acquiring a lock havocs what it guards
 	set := map[string]bool{"G_held": true, e.heapMap("G_heldx", "(Array Int Bool)"): true}
-	for _, lc := range e.w.discipline().classes {
+	for cls, lc := range e.w.discipline().classes {
+		if only != "" && cls != only {
+			continue
+		}
 		for _, gf := range lc.Fields {
 			set[e.fieldMap(gf.Struct, gf.Field)] = true
 			if gf.Elems {
